@@ -22,7 +22,9 @@ UNDECIDED = ["stack exhaustion on deeply nested input", "hangs other than rule R
 ASSUMPTIONS = ["pest produces exactly the pair structure its grammar describes", "debug-build overflow checks are the stricter case"]
 
 PANICKY = ("core::panicking::", "Option::<T>::unwrap", "Option::<T>::expect", "Result::<T, E>::unwrap", "Result::<T, E>::expect", "ops::Index", "ops::index",
-           "::abs", "process::exit", "process::abort")
+           "::abs", "process::exit", "process::abort",
+           # library calls that panic by contract (unequal lengths, index out of range): none on the pinned tree, each new one needs its invariant
+           "Itertools::zip_eq", "itertools::zip_eq", "Vec::<T, A>::swap_remove", "Vec::<T, A>::split_off", "Vec::<T, A>::remove", "<impl [T]>::split_at", "Itertools::exactly_one")
 FOREIGN = ("std", "core", "alloc", "clap", "pest", "derive_more", "lazy_static", "thiserror", "either", "indexmap", "itertools")
 
 TS = "translating::formula_representation::tau_star::"
@@ -98,6 +100,11 @@ ARITH_CALL = re.compile(r"^<&?(?:'\w+ )?(isize|usize|i8|i16|i32|i64|i128|u8|u16|
 def site_kind(c):
     if "panicking" in c:
         return "panic"
+    for lib_ in ("zip_eq", "swap_remove", "split_off", "split_at", "exactly_one"):
+        if c.endswith(lib_):
+            return lib_
+    if c.endswith("::remove"):
+        return "remove"
     if c.endswith("unwrap"):
         return "unwrap"
     if c.endswith("expect"):
